@@ -6,7 +6,7 @@ from ..framework import Report
 from . import c03, c04
 
 PROP = "C07"
-FROM_C04 = ("b-single-append", "b-record-template", "c-bucket-open", "c-bucket-mutation")
+FROM_C04 = ("b-single-append", "b-one-write-call", "b-record-template", "c-bucket-open", "c-bucket-mutation")
 FROM_C03 = ("a-who-writes-content", "b-staged-in-cache-tmp", "b-temp-location")
 ATOMIC = re.compile(r"^std::sync::atomic::(Atomic(Bool|U8|U16|U32|U64|Usize|I8|I16|I32|I64|Isize)|Atomic<(bool|u8|u16|u32|u64|usize|i8|i16|i32|i64|isize)>)$")
 
@@ -31,7 +31,7 @@ def check_config(cfg, w, rep):
     # (a) one index record = one write on an O_APPEND descriptor   (b) content visible only by atomic rename of a
     # uniquely named temp file in {cache}/tmp
     sub = Report("C04")
-    c04.check_config(cfg, w, sub)
+    c04.check_config(cfg, w, sub, strict_single=True)
     _import(cfg, rep, sub, FROM_C04, "a")
     sub = Report("C03")
     c03.check_config(cfg, w, sub)
